@@ -203,6 +203,26 @@ def eval_spec(case):
         if not ok:
             o.fail('spec-result', '%s via %s -> %r; pad-then-apply on a copy gives %r' % (
                 what, nm, val, [e.to_str() if k == 'ok' else 'ValueError' for k, e in exps]))
+    # the rendering flags must mean the same with a spec as without one: to_str(spec, flags) == (pad-then-apply copy).to_str(None, flags)
+    if len(ps) == 1 and exps[0][0] == 'ok':
+        from vlib.interp import FLAGS8
+        for (opt, rs, re_) in FLAGS8:
+            try:
+                got = v.to_str(spec, opt, rs, re_)
+            except ValueError as e:
+                o.fail('spec-flags-raised', '%s: to_str(%r, optimize=%s, reset_start=%s, reset_end=%s) raised %r' % (what, spec, opt, rs, re_, e))
+                break
+            want = exps[0][1].to_str(None, opt, rs, re_)
+            if got != want:
+                ok2 = False
+                if wf and wellformed(per_char(exps[0][1])):
+                    a_, b_ = sgrterm.run(got), sgrterm.run(want)
+                    d1, d2 = sgrterm.run(got, sgrterm.DIRTY), sgrterm.run(want, sgrterm.DIRTY)
+                    ok2 = (a_[0], a_[1]) == (b_[0], b_[1]) and (not rs or (d1[0], d1[1]) == (d2[0], d2[1]))
+                if not ok2:
+                    o.fail('spec-flags', '%s: to_str(%r, optimize=%s, reset_start=%s, reset_end=%s) -> %r; the padded copy renders %r' % (
+                        what, spec, opt, rs, re_, got, want))
+                    break
     if len(ps) > 1:
         o.label('multi-parse')
     if not ps:
